@@ -47,9 +47,9 @@ HARNESSES = [
     Harness('fill', 'h_write_fn', unwind=6, unwindset=FILL, bounds='span of 1..3 granules inside the first 4 granules, truncated to 1..256 bytes by the write function', mem_gb=6),
     Harness('reset', 'h_reset_hard', unwind=6, unwindset=MEM, bounds='1..2 blocks of 64 granules in any states of I, any list order / tree shape', mem_gb=6),
     Harness('reset', 'h_reset_kf_C09G', unwind=6, unwindset=MEM, bounds='same', mem_gb=6, known='C09G'),
-    Harness('reset', 'h_reset_soft', unwind=6, unwindset=MEM, bounds='same, followed by one alloc of 1..256 bytes', mem_gb=6),
+    Harness('reset', 'h_reset_soft', unwind=6, unwindset=MEM, bounds='same', mem_gb=6),
+    Harness('reset', 'h_reset_soft_then_alloc', unwind=6, unwindset=MEM, bounds='same, followed by one alloc of 1..256 bytes', mem_gb=6, timeout=1500, tiers=('thorough',)),
     Harness('reset', 'h_reset_soft_kf_C09E', unwind=6, unwindset=MEM, bounds='same, region of C09E', mem_gb=6, known='C09E'),
-    Harness('reset', 'h_reset_fill_kf_C09D', unwind=6, unwindset=FILL.replace(':50', ':1100'), bounds='concrete block with two live spans, fill enabled, any pattern, any byte of the first 8 granules', mem_gb=6, known='C09D'),
     Harness('bits', 'h_bv_fill_clear', unwind=5, unwindset=MEM, bounds='3 words, every index/count', mem_gb=4),
     Harness('bits', 'h_bv_bit', unwind=5, unwindset=MEM, bounds='3 words, every index', mem_gb=4),
     Harness('bits', 'h_bv_index_of', unwind=5, unwindset=MEM, bounds='3 words, every start', mem_gb=4),
